@@ -1,11 +1,16 @@
 """C16 -- AVL tree: proofs in Avl/AvlProofs.v, tie = avl_drv (C, /repo/src/iv_avl.c)
-vs the extracted AvlModel on identical cases, full structural dump after every op."""
+vs the extracted AvlModel on identical cases, full structural dump after every op;
+second stage: `avl_drv ptr` vs the extracted pointer-level model Avl/AvlPtrModel.v
+(every field of every live node object by allocation serial, after every op)."""
 import functools
 import os
 
 import vlib
 import runner
+import framework
 from framework import LineCheck
+
+PTR_TAG = "pointer-level store: "
 
 
 @functools.lru_cache(maxsize=None)
@@ -39,11 +44,17 @@ def tokens(s, base=0):
 
 class C16(LineCheck):
     pid = "C16"
-    coq_targets = ["theories/Avl/AvlModel.vo", "theories/Avl/AvlMonitor.vo", "theories/Avl/AvlProofs.vo"]
-    corr_name = "correspondence avl_drv(iv_avl.c) = extracted AvlModel (rc, full tree dump with heights and parent keys, next/prev traversals after every op)"
+    coq_targets = ["theories/Avl/AvlModel.vo", "theories/Avl/AvlMonitor.vo", "theories/Avl/AvlProofs.vo",
+                   "theories/Avl/AvlPtrModel.vo", "theories/Avl/AvlPtrC16.vo", "theories/Avl/AvlPtrHist.vo"]
+    corr_name = ("correspondence avl_drv(iv_avl.c) = extracted AvlModel (rc, full tree dump with heights and parent keys, next/prev "
+                 "traversals after every op) and avl_drv ptr(iv_avl.c) = extracted AvlPtrModel (rc, root pointer, the "
+                 "left/right/parent/height/key fields of every live node object named by allocation serial, next/prev traversals "
+                 "by node identity, after every op)")
     trusted = [
-        "modelled, not verified: pointer surgery of iv_avl.c (left/right/parent fields, uint8_t height) is represented by a functional tree with stored heights and a zipper; the tie to the C text is the per-operation dump comparison",
-        "avl_drv.c builds start shapes by writing node fields directly and locates delete victims by its own BST search",
+        "pointer surgery of iv_avl.c (left/right/parent fields, height) is transcribed statement by statement over a store id -> {left,right,parent,height,key} (AvlPtrModel: NULL / dangling dereferences and exhausted loop bounds are explicit error outcomes) and PROVED to refine the functional tree model (Avl/AvlPtr*.v: RepF incl. parent-pointer consistency and no sharing; insert / delete / min / max / next / prev / for_each; C16_ptr_* theorems); what stays trusted is the transcription itself, tied to the C text by the per-operation comparison of all fields of all live node objects + root + traversals by node identity (and the functional model by the tree dump comparison)",
+        "height is Z in AvlPtrModel, uint8_t in C: a tree of height 255 needs more than 2^176 nodes (C16_height_log); not modelled",
+        "avl_drv.c builds start shapes by writing node fields directly and locates delete victims by its own BST search; in ptr mode it names node objects by allocation serial through its own registry of live objects (a pointer to anything else prints as `?`); avl_ptr_drv.ml.in builds the same start store directly (pre-order ids, exact heights, parent ids)",
+        "the pointer-level model run uses fuel 64 for every loop and garbage fields (left=right=parent=id 1, height 170) for a fresh node; the C harness fills a fresh node with one of four byte patterns",
     ]
     assumptions = [
         "keys are mathematical integers (Z) compared by <; the C comparator used by the harness is integer comparison",
@@ -51,7 +62,9 @@ class C16(LineCheck):
     ]
     rule = ("cases = every AVL shape of height <= 4 (335 shapes; height 5 sampled in thorough) x every insert gap and every deletable node, "
             "plus seeded random mixed insert/delete histories with duplicate keys over small key ranges; a case is non-trivial when some "
-            "successful operation acts on a tree of >= 3 nodes (rebalancing walks a path of length >= 2); distinct = distinct case text")
+            "successful operation acts on a tree of >= 3 nodes (rebalancing walks a path of length >= 2); distinct = distinct case text; "
+            "every case runs through both stages: tree dump vs AvlModel + monitor, and pointer-level dump (all fields of all live node "
+            "objects by allocation serial, root, traversals by node identity) vs AvlPtrModel, after every operation")
 
     def build(self, ctx):
         d = os.path.join(ctx.work, "b")
@@ -66,8 +79,19 @@ class C16(LineCheck):
         if not ok:
             return False, out + out2
         ok, out3 = vlib.cc_build(d, "avl_drv", ["avl_drv.c"], ["iv_avl"])
+        if not ok:
+            return False, out + out2 + out3
+        # pointer-level stage: extracted AvlPtrModel + its driver
+        ok, out4 = vlib.coq_extract("Extract/ExtractAvlPtr.v", d)
+        if not ok:
+            return False, out + out2 + out3 + out4
+        with open(os.path.join(d, "avl_ptr_drv.ml"), "w") as f:
+            f.write("open Avl_ptr_model\n")
+            f.write(open(os.path.join(vlib.VERIF, "ocaml", "zutil.ml.in")).read())
+            f.write(open(os.path.join(vlib.VERIF, "ocaml", "avl_ptr_drv.ml.in")).read())
+        ok, out5 = vlib.ocaml_build(d, ["avl_ptr_model.ml", "avl_ptr_drv.ml"], "avl_ptr_model_run")
         self.d = d
-        return ok, out + out2 + out3
+        return ok, out + out2 + out3 + out4 + out5
 
     def model_cmd(self, ctx):
         return [os.path.join(self.d, "avl_model_run"), "run"]
@@ -77,6 +101,61 @@ class C16(LineCheck):
 
     def monitor_cmd(self, ctx):
         return [os.path.join(self.d, "avl_model_run"), "mon"]
+
+    def ptr_model_cmd(self, ctx):
+        return [os.path.join(self.d, "avl_ptr_model_run"), "run"]
+
+    def ptr_impl_cmd(self, ctx):
+        return [os.path.join(self.d, "avl_drv"), "ptr"]
+
+    ptr_ops = 0          # operations compared (and found equal) at the pointer level, over all correspond() calls
+    ptr_cases = 0
+
+    def correspond_ptr(self, ctx, cases):
+        """pointer-level stage alone: extracted AvlPtrModel vs `avl_drv ptr` on the same cases.
+        Returns {"div": [(idx, why)], "crashes": [(idx, stderr)], "pmres": ..., "pires": ..., "ops": n}"""
+        env = dict(runner.ASAN_ENV)
+        env.update(self.impl_env or {})
+        pm = runner.run_cases_sharded(self.ptr_model_cmd(ctx), cases, timeout=self.timeout(ctx))
+        pi = runner.run_cases_sharded(self.ptr_impl_cmd(ctx), cases, timeout=self.timeout(ctx), env=env)
+        div, crashes, ops, eq = [], [], 0, 0
+        for idx in range(len(cases)):
+            mo, merr = pm[idx]
+            io, ierr = pi[idx]
+            if merr is not None or mo is None:
+                div.append((idx, PTR_TAG + "model runner failed: %s" % (merr or "")[:300]))
+                continue
+            if ierr is not None:
+                crashes.append((idx, "(avl_drv ptr) " + ierr))
+            elif io != mo:
+                div.append((idx, PTR_TAG + framework.first_diff(mo, io)))
+            else:
+                eq += 1
+                ops += mo.count(" | ") + 1 if mo else 0
+        return {"div": div, "crashes": crashes, "pmres": pm, "pires": pi, "ops": ops, "cases_equal": eq}
+
+    def correspond(self, ctx, cases):
+        st = LineCheck.correspond(self, ctx, cases)
+        ps = self.correspond_ptr(ctx, cases)
+        st["div"] = sorted(st["div"] + ps["div"], key=lambda x: x[0])
+        have = set(i for i, _ in st["crashes"])
+        st["crashes"] = sorted(st["crashes"] + [(i, e) for i, e in ps["crashes"] if i not in have], key=lambda x: x[0])
+        st["ptr"] = {"div": len(ps["div"]), "crashes": len(ps["crashes"]), "ops": ps["ops"], "cases_equal": ps["cases_equal"]}
+        st["pmres"], st["pires"] = ps["pmres"], ps["pires"]
+        self.ptr_ops += ps["ops"]
+        self.ptr_cases += ps["cases_equal"]
+        self.last_st = st
+        return st
+
+    def replay(self, ctx, path):
+        rc = LineCheck.replay(self, ctx, path)
+        st = getattr(self, "last_st", None)
+        if st and st["n"] == 1:
+            vlib.log("pointer-level model: %s" % (st["pmres"][0][0],))
+            vlib.log("pointer-level impl : %s" % (st["pires"][0][0],))
+            if st["pires"][0][1]:
+                vlib.log("avl_drv ptr crash/sanitizer:\n" + st["pires"][0][1])
+        return rc
 
     def cases(self, ctx):
         rng = vlib.rng_for(ctx.seed, "C16")
@@ -139,7 +218,8 @@ class C16(LineCheck):
         ins = sum(c.split("|")[1].count("i") for c in cases)
         dele = sum(c.split("|")[1].count("d") for c in cases)
         return {"corpus_cases": self.n_corpus, "exhaustive_shape_cases": self.n_exh, "random_histories": self.n_hist,
-                "insert_ops": ins, "delete_ops": dele}
+                "insert_ops": ins, "delete_ops": dele,
+                "pointer_level_cases_equal": self.ptr_cases, "pointer_level_ops_compared": self.ptr_ops}
 
     def _fails(self, ctx, case):
         st = self.correspond(ctx, [case])
